@@ -35,6 +35,10 @@ class Method(Variable):  # i.e. TypeBound procedure
             link_obj=link_obj,
         )
         self.drop_arg: int = -1
+        # True while the hover text of the linked interface is being built: the
+        # interface may have this very object among its arguments
+        # (subroutine foo(cb) with procedure(foo) :: cb)
+        self._in_hover: bool = False
         self.pass_name: str = keyword_info.get("pass")
         if link_obj is None:
             self.link_name = get_paren_substring(self.get_desc(True).lower())
@@ -74,10 +78,17 @@ class Method(Variable):  # i.e. TypeBound procedure
         if self.link_obj is None:
             sub_sig, _ = self.get_snippet()
             hover_str = f"{self.get_desc()} {sub_sig}"
+        elif self._in_hover:
+            # Reached again through the arguments of its own interface
+            hover_str = f"{self.get_desc(True)} :: {self.name}"
         else:
-            link_msg, link_docs = self.link_obj.get_hover(
-                long=True, drop_arg=self.drop_arg
-            )
+            self._in_hover = True
+            try:
+                link_msg, link_docs = self.link_obj.get_hover(
+                    long=True, drop_arg=self.drop_arg
+                )
+            finally:
+                self._in_hover = False
             # Replace the name of the linked object with the name of this object
             hover_str = link_msg.replace(self.link_obj.name, self.name, 1)
             if isinstance(link_docs, str):
